@@ -83,6 +83,18 @@ class SseInstruction(Instruction):
                 r += tokens[6].encode()
         return r
 
+    # See X86Instruction: set when the instruction writes its r/m operand.
+    rm_written = False
+
+    @property
+    def defined_registers(self):
+        defined = super().defined_registers
+        if self.rm_written:
+            rm = getattr(self, "rm", None)
+            if isinstance(rm, (RmXmmReg, RmXmmRegSingle)):
+                defined.append(rm.reg_rm)
+        return defined
+
 
 class Sse1Instruction(SseInstruction):
     """Sse1 instruction"""
@@ -173,6 +185,7 @@ class Movss2(Sse1Instruction):
 
     rm = Operand("rm", xmm_single_rm_modes)
     r = Operand("r", XmmRegisterSingle, read=True)
+    rm_written = True
     syntax = Syntax(["movss", " ", rm, ",", " ", r], priority=1)
     patterns = {"prefix": 0xF3, "opcode": 0x11}
 
@@ -182,6 +195,7 @@ class Movsd2(Sse2Instruction):
 
     rm = Operand("rm", xmm_double_rm_modes)
     r = Operand("r", XmmRegisterDouble, read=True)
+    rm_written = True
     syntax = Syntax(["movsd", " ", rm, ",", " ", r], priority=1)
     patterns = {"prefix": 0xF2, "opcode": 0x11}
 
